@@ -11,7 +11,7 @@ from typing import Dict, List, Optional, Tuple
 
 from ..model import AnalysisError, FuncInfo, Program, dotted, own_nodes, unparse
 from ..symex import atoms_of, facts_for, phi_alternatives, resolve
-from .common import U, arg_of, bind_args, const_value, is_self_attr, returns_of, short
+from .common import result_sites, U, arg_of, bind_args, const_value, is_self_attr, returns_of, short
 
 PF = "pygradflow.penalty.PenaltyFilter"
 
@@ -27,19 +27,47 @@ EXPLANATION = (
 )
 
 
-def _dominance_lambda(fi: FuncInfo, name: str) -> Optional[Tuple[List[str], ast.AST]]:
-    """(params, resolved return expr) of the local/nested/method predicate `name`."""
+def _dominance_lambda(fi: FuncInfo, name: str, prog: Optional[Program] = None, call: Optional[ast.Call] = None) -> Optional[Tuple[List[str], ast.AST]]:
+    """(params, resolved return expr) of the predicate `name`: nested def, local lambda, module-level function, or method."""
     nested = fi.nested.get(name)
     if nested is not None:
-        rs = returns_of(nested)
-        if len(rs) != 1 or rs[0].value is None:
-            return None
-        ff = facts_for(nested)
-        return nested.params, ff.resolved(rs[0], rs[0].value)
+        b = _pred_body(nested)
+        return (nested.params, b) if b is not None else None
     for n in own_nodes(fi.node):
         if isinstance(n, ast.Assign) and len(n.targets) == 1 and isinstance(n.targets[0], ast.Name) \
                 and n.targets[0].id == name and isinstance(n.value, ast.Lambda):
             return [a.arg for a in n.value.args.args], n.value.body
+    if prog is not None and call is not None:
+        tg = [t for t in prog.resolve_call_target(fi, call) if isinstance(t, FuncInfo)]
+        if len(tg) == 1 and tg[0].module.name == fi.module.name:
+            t = tg[0]
+            b = _pred_body(t)
+            ps = [p for p in t.params if p not in ("self", "cls")]
+            return (ps, b) if b is not None else None
+    return None
+
+
+def _pred_body(f: FuncInfo) -> Optional[ast.AST]:
+    """boolean expression computed by a predicate whose body is `[if <c>: return False]* ; return <e>` (docstring allowed)."""
+    body = [b for b in f.node.body if not (isinstance(b, ast.Expr) and isinstance(b.value, ast.Constant))]
+    if not body or not isinstance(body[-1], ast.Return) or body[-1].value is None:
+        return None
+    conj = []
+    for b in body[:-1]:
+        if isinstance(b, ast.If) and not b.orelse and len(b.body) == 1 and isinstance(b.body[0], ast.Return) and isinstance(b.body[0].value, ast.Constant) \
+                and b.body[0].value.value is False:
+            conj.append(ast.UnaryOp(op=ast.Not(), operand=b.test))
+        else:
+            return None
+    conj.append(body[-1].value)
+    return conj[0] if len(conj) == 1 else ast.BoolOp(op=ast.And(), values=conj)
+
+
+def _callee_name(n: ast.Call) -> Optional[str]:
+    if isinstance(n.func, ast.Name):
+        return n.func.id
+    if isinstance(n.func, ast.Attribute) and isinstance(n.func.value, ast.Name) and n.func.value.id in ("self", "cls", "PenaltyFilter"):
+        return n.func.attr
     return None
 
 
@@ -135,29 +163,65 @@ def run(prog: Program, rep, tier: str) -> None:
 
     # --- rule 1: dominance predicate ------------------------------------------
     pred_names = []
+    pred_defs = {}
     for n in own_nodes(fi.node):
-        if isinstance(n, ast.Call) and isinstance(n.func, ast.Name) and len(n.args) == 2 and _dominance_lambda(fi, n.func.id):
-            if n.func.id not in pred_names:
-                pred_names.append(n.func.id)
-    if len(pred_names) != 1:
+        if isinstance(n, ast.Call) and len(n.args) == 2 and _callee_name(n) and _callee_name(n) not in ("append", "remove"):
+            d = _dominance_lambda(fi, _callee_name(n), prog, n)
+            if d and _callee_name(n) not in pred_names:
+                pred_names.append(_callee_name(n))
+                pred_defs[_callee_name(n)] = d
+    if len(pred_names) > 1:
         raise AnalysisError(f"filter algorithm not in a recognised form: expected one dominance predicate, found {pred_names}")
-    pname = pred_names[0]
-    dparams, dbody = _dominance_lambda(fi, pname)
-    formula = _dominance_formula(dparams, dbody)
-    if formula is None:
-        rep.fail("filter-1-dominance", fi.qualname, U(dbody),
-                 f"dominance predicate `{U(dbody)}` is not a conjunction of coordinate comparisons a[k] <= b[k]", fi.loc())
-    else:
-        rep.check(formula == WANT_DOM, "filter-1-dominance", fi.qualname, U(dbody),
-                  f"dominates(a,b) normalises to a[0]<=b[0] and a[1]<=b[1] (found: {sorted(formula)})", fi.loc())
+    pname = pred_names[0] if pred_names else None
+    inline_uses: List[Tuple[ast.AST, Optional[set]]] = []
+    if pname is not None:
+        dparams, dbody = pred_defs[pname]
+        formula = _dominance_formula(dparams, dbody)
+        if formula is None:
+            rep.fail("filter-1-dominance", fi.qualname, U(dbody),
+                     f"dominance predicate `{U(dbody)}` is not a conjunction of coordinate comparisons a[k] <= b[k]", fi.loc())
+        else:
+            rep.check(formula == WANT_DOM, "filter-1-dominance", fi.qualname, U(dbody),
+                      f"dominates(a,b) normalises to a[0]<=b[0] and a[1]<=b[1] (found: {sorted(formula)})", fi.loc())
+
+    def inline_pred(e: ast.AST, elem_names, positive) -> Optional[_Pred]:
+        """dominance written in place: `a[0] <= b[0] and a[1] <= b[1]` over the new entry and the loop element."""
+        def coord(txt):
+            x = ast.parse(txt, mode="eval").body
+            if isinstance(x, ast.Name) and x.id in params:
+                return ("new", params.index(x.id))
+            if isinstance(x, ast.Subscript) and isinstance(x.value, ast.Name) and const_value(x.slice) in (0, 1):
+                r_ = role(x.value, elem_names)
+                if r_:
+                    return (r_, const_value(x.slice))
+            return None
+        atoms = atoms_of(e, True)
+        form = set()
+        for op, l, r in atoms:
+            if r is None:
+                return None
+            a, b = coord(l), coord(r)
+            if a is None or b is None:
+                return None
+            form.add((op, a, b))
+        for X, Y in (("new", "elem"), ("elem", "new")):
+            if form == {("<=", (X, 0), (Y, 0)), ("<=", (X, 1), (Y, 1))}:
+                inline_uses.append((e, form))
+                return _Pred(X, Y, positive)
+        inline_uses.append((e, None))
+        rep.fail("filter-1-dominance", fi.qualname, U(e), f"VIOLATED: the in-place comparison `{U(e)}` of the new entry with a stored one is not the dominance "
+                 f"a[0]<=b[0] and a[1]<=b[1] (found: {sorted(form)})", fi.loc(e))
+        return None
 
     def pred_use(e: ast.AST, elem_names, positive=True) -> Optional[_Pred]:
         if isinstance(e, ast.UnaryOp) and isinstance(e.op, ast.Not):
             return pred_use(e.operand, elem_names, not positive)
-        if isinstance(e, ast.Call) and isinstance(e.func, ast.Name) and e.func.id == pname and len(e.args) == 2:
+        if pname is not None and isinstance(e, ast.Call) and _callee_name(e) == pname and len(e.args) == 2:
             a, b = role(e.args[0], elem_names), role(e.args[1], elem_names)
             if a and b:
                 return _Pred(a, b, positive)
+        if pname is None and isinstance(e, (ast.BoolOp, ast.Compare)):
+            return inline_pred(e, elem_names, positive)
         return None
 
     def iter_is_entries(e: ast.AST, allow_copy=True) -> Optional[str]:
@@ -272,6 +336,39 @@ def run(prog: Program, rep, tier: str) -> None:
                         and act.value.func.attr == "remove" and is_self_attr(act.value.func.value, "entries") \
                         and len(act.value.args) == 1 and role(act.value.args[0], elem) == "elem":
                     removal = (si.index, pu, st)
+        # form C: kept = []; for e in self.entries: if dominates(new, e): continue; kept.append(e) ... self.entries = kept
+        if isinstance(st, ast.Assign) and len(st.targets) == 1 and is_self_attr(st.targets[0], "entries") and isinstance(st.value, ast.Name) and not si.loops:
+            kept = st.value.id
+            inits = [q for q in ff.order if (isinstance(q.stmt, ast.Assign) and len(q.stmt.targets) == 1 and U(q.stmt.targets[0]) == kept)
+                     or (isinstance(q.stmt, ast.AnnAssign) and q.stmt.value is not None and U(q.stmt.target) == kept)]
+            fills = [q for q in ff.order if isinstance(q.stmt, ast.For) and any(isinstance(m, ast.Call) and isinstance(m.func, ast.Attribute) and U(m.func.value) == kept for m in ast.walk(q.stmt))]
+            others = [q for q in ff.order for m in ([q.stmt] if not isinstance(q.stmt, (ast.For, ast.If, ast.While)) else []) for k in ast.walk(m)
+                      if isinstance(k, ast.Call) and isinstance(k.func, ast.Attribute) and U(k.func.value) == kept and not any(q.stmt in ast.walk(f.stmt) for f in fills)]
+            kept_new = [q for q in others if isinstance(q.stmt, ast.Expr) and isinstance(q.stmt.value, ast.Call) and q.stmt.value.func.attr == "append" and len(q.stmt.value.args) == 1
+                        and role(q.stmt.value.args[0], set()) == "new" and not q.loops and fills and fills[0].index < q.index < si.index]
+            if len(kept_new) == 1 and len(others) == 1:
+                others = []
+                appends.append((kept_new[0], "new"))
+            if len(inits) == 1 and isinstance(inits[0].stmt.value, ast.List) and not inits[0].stmt.value.elts and inits[0].index > ridx and len(fills) == 1 \
+                    and inits[0].index < fills[0].index < si.index and not others and iter_is_entries(fills[0].stmt.iter) and not fills[0].stmt.orelse:
+                lp_ = fills[0].stmt
+                elem = {n.id for n in ast.walk(lp_.target) if isinstance(n, ast.Name)}
+
+                def is_keep(x):
+                    return isinstance(x, ast.Expr) and isinstance(x.value, ast.Call) and isinstance(x.value.func, ast.Attribute) and x.value.func.attr == "append" \
+                        and U(x.value.func.value) == kept and len(x.value.args) == 1 and role(x.value.args[0], elem) == "elem"
+                b = lp_.body
+                pu = None
+                if len(b) == 2 and isinstance(b[0], ast.If) and not b[0].orelse and len(b[0].body) == 1 and isinstance(b[0].body[0], ast.Continue) and is_keep(b[1]):
+                    pu = pred_use(b[0].test, elem)          # removed iff test
+                elif len(b) == 1 and isinstance(b[0], ast.If) and not b[0].orelse and len(b[0].body) == 1 and is_keep(b[0].body[0]):
+                    k = pred_use(b[0].test, elem)            # kept iff test
+                    pu = _Pred(k.first, k.second, not k.positive) if k else None
+                elif len(b) == 1 and isinstance(b[0], ast.If) and len(b[0].orelse) == 1 and is_keep(b[0].orelse[0]) and len(b[0].body) == 1 and isinstance(b[0].body[0], (ast.Continue, ast.Pass)):
+                    pu = pred_use(b[0].test, elem)
+                if pu is not None:
+                    removal = (fills[0].index, pu, lp_)
+                    stores = [(i, x) for i, x in stores if x is not st]
         if isinstance(st, ast.Expr) and isinstance(st.value, ast.Call) and isinstance(st.value.func, ast.Attribute) \
                 and st.value.func.attr == "append" and is_self_attr(st.value.func.value, "entries") and len(st.value.args) == 1:
             appends.append((si, role(st.value.args[0], set())))
@@ -348,30 +445,29 @@ def run(prog: Program, rep, tier: str) -> None:
               "the pair inserted is iterate_entry(<candidate iterate>) - the candidate, not the previous iterate", upd.loc(si_ic.stmt))
     ins_text = U(uf.resolved(si_ic.stmt, ic))
     accept_rets, reject_rets, other = [], [], []
-    for r in returns_of(upd):
-        v = r.value
+    for r, v in result_sites(upd, uf):
         nm = dotted(v.func) if isinstance(v, ast.Call) else None
         if nm and nm.endswith("accept_with_penalty"):
-            accept_rets.append(r)
+            accept_rets.append((r, v))
         elif nm and nm.endswith("reject_with_penalty"):
-            reject_rets.append(r)
+            reject_rets.append((r, v))
         else:
             other.append(r)
     rep.check(len(accept_rets) >= 1 and len(reject_rets) >= 1 and not other, "filter-5-results", upd.qualname, short(other[0]) if other else "",
               "update returns only accept_with_penalty(..) / reject_with_penalty(..)", upd.loc())
     rho_stores = [s for s in uf.order if isinstance(s.stmt, (ast.Assign, ast.AugAssign)) and
                   any(is_self_attr(t, "rho") for t in (s.stmt.targets if isinstance(s.stmt, ast.Assign) else [s.stmt.target]))]
-    for r in accept_rets:
+    for r, v in accept_rets:
         sr = uf.at(r)
         on_accept = ("truthy", ins_text, None) in sr.facts
         no_store = all(not (s.index < sr.index and ("truthy", ins_text, None) in s.facts) for s in rho_stores)
-        val = uf.resolved(r, r.value.args[0]) if r.value.args else None
+        val = uf.resolved(r, v.args[0]) if v.args else None
         rep.check(on_accept and no_store and val is not None and U(val) == "self.rho", "filter-5-accept-unchanged", upd.qualname, short(r),
                   "an accepted point returns accept_with_penalty(self.rho) with no store to the penalty on that path", upd.loc(r))
-    for r in reject_rets:
+    for r, v in reject_rets:
         sr = uf.at(r)
         on_reject = ("falsy", ins_text, None) in sr.facts
-        val = uf.resolved(r, r.value.args[0]) if r.value.args else None
+        val = uf.resolved(r, v.args[0]) if v.args else None
         tenfold = False
         if val is not None and isinstance(val, ast.BinOp) and isinstance(val.op, ast.Mult):
             l, rr = val.left, val.right
